@@ -96,12 +96,12 @@ def tailFilesParams : List String := ["filenames", "batchSize", "batchBuffer", "
 /-- `TailFilesToChan`: a goroutine that starts ONE goroutine per file name (no channel operation, no
     semaphore between them) and closes the batch channel after `wg.Wait()` (`Rare.C15.Multi`) -/
 def tailFilesSkeleton : List String :=
-  ["go{", "range:filenames{", "call:wg.Add", "go{", "defer{", "call:wg.Done", "call:out.stopFileReading", "}",
+  ["go{", "range:filenames{", "call:wg.Add", "go{", "defer{", "call:out.stopFileReading", "call:wg.Done", "}",
    "call:out.incErrors", "return", "call:out.incErrors", "call:out.startFileReading",
    "call:out.syncReaderToBatcherWithTimeFlush", "}", "}", "call:wg.Wait", "call:out.close", "}", "return"]
 
 def tailFilesBookkeeping : List String :=
-  ["newBatcher(batchBuffer)", "wg.Add(1)", "wg.Done()", "out.stopFileReading(filename)", "out.incErrors()",
+  ["newBatcher(batchBuffer)", "wg.Add(1)", "out.stopFileReading(filename)", "wg.Done()", "out.incErrors()",
    "out.incErrors()", "out.startFileReading(filename)", "wg.Wait()", "out.close()"]
 
 /-- `-F` implies following; `--poll` and `--tail` do not -/
